@@ -22,6 +22,19 @@ def _lsp():
 
 
 _CONV = None
+VARIANT = None  # None: the package's own converter; "omit": hooks on a caller-supplied cattrs.Converter(omit_if_default=True)
+VARIANTS = {
+    None: "converters.get_converter()",
+    "omit": "converters.get_converter(cattrs.Converter(omit_if_default=True))",
+}
+
+
+def set_variant(v):
+    """switch the analysed converter (C10 decides the null rule on a caller-supplied converter that omits defaults too:
+    the hooks pass omit_if_default=False for special properties precisely so that the rule survives there)"""
+    global _CONV, VARIANT
+    assert v in VARIANTS
+    VARIANT, _CONV = v, None
 
 
 def _conv():
@@ -29,22 +42,24 @@ def _conv():
     must be the same object (per-converter state, e.g. caches inside the hook factories, is part of what is analysed)"""
     global _CONV
     if _CONV is None:
-        from lsprotocol import converters
+        import cattrs  # noqa: F401
+        from lsprotocol import converters  # noqa: F401
 
         from .xhrt import foreign_history
 
         foreign_history()
-
-        _CONV = converters.get_converter()
+        _CONV = eval(VARIANTS[VARIANT])
     return _CONV
 
 
-HISTORY_PRELUDE = (
-    "from vlib import classlemmas\n"
-    "def _converter_with_history():\n"
-    "    # same creation history as the check: one converter that generated the functions of all classes in metamodel order\n"
-    "    c = classlemmas._conv(); classlemmas.all_cases(c); return c\n"
-)
+def history_prelude():
+    return (
+        "from vlib import classlemmas\n"
+        "classlemmas.set_variant(%r)\n"
+        "def _converter_with_history():\n"
+        "    # same creation history as the check: one converter that generated the functions of all classes in metamodel order\n"
+        "    c = classlemmas._conv(); classlemmas.all_cases(c); return c\n"
+    ) % (VARIANT,)
 
 
 JSONRPC = {"name": "jsonrpc", "type": {"kind": "stringLiteral", "value": "2.0"}, "envelope": True}
@@ -418,7 +433,7 @@ def replay_sat(chk, c, kind, m):
 
 
 def _emit_code(name, j, none_attrs, want):
-    return HISTORY_PRELUDE + (
+    return history_prelude() + (
         "import json\nfrom lsprotocol import converters, types\nJ = json.loads(%r)\nNONE = %r\nWANT = %r\n"
         "def replay():\n    c = _converter_with_history(); T = getattr(types, %r)\n    o = c.structure(J, T)\n"
         "    for a in NONE: object.__setattr__(o, a, None)\n    out = c.unstructure(o, T)\n"
